@@ -1,114 +1,330 @@
+/-! # asyncPages (page.go:121-323, line numbers of the tree that contains the verif trace hook) as a labelled transition system
+
+MIRROR of `page.go` (every transition carries the `file:line` it transliterates), plus a ghost
+*sequential reader* (`spec`) and ghost ownership lists (`released`, `handed`) that no transition
+reads.
+
+Two processes share three channels and nothing else:
+
+* the **consumer** (the goroutine calling `ReadPage`, `SeekToRow`, `Close`; the methods are not
+  safe for concurrent use, so there is one consumer), program counter `CPc`;
+* the **producer** (`readPages`, page.go:248-319), program counter `PPc`;
+* `read` (unbuffered, page.go:122): a rendezvous, modelled as one joint step (`handoff`,
+  `closeRecv`, `closeFinal`); `seek` (capacity 1, page.go:123): `seekCh : Option (row × version)`;
+  `init`/`done` (closed once, page.go:124-125): `initClosed`/`doneClosed`.
+
+Interleaving semantics: in every state every enabled step of either process may fire. A Go `select`
+with several ready cases is a nondeterministic choice (`handoff`/`selTake`/`selDone`,
+`initPass`/`initDone`).
+
+The wrapped `Pages` value is abstracted to `Under`: a position (a row index), `rd p` = outcome of
+`ReadPage` at position `p`, `next p` = position after reading the page at `p`, `sk k` = outcome of
+`SeekToRow k` (a successful seek is *absolute*: it sets the position to `k` whatever the state was;
+this is C08's abstraction of `FilePages`). A page is identified by the position it was read from.
+
+Granularity decisions (each merges steps no other process can observe in between):
+`pages.start()` (page.go:241-246) is merged into the step that precedes/follows it (`readBegin`,
+`seekSend`) because while `init` is open the producer is blocked on it and when it is closed
+`start` is a no-op; `close(init); close(done)` (page.go:165-172) is one step because a producer that
+has seen `init` but not yet `done` behaves like one that has not looked at `done` yet; the deferred
+`read <- final; close(read)` (page.go:250-252) is one step; the consumer's receive and its version
+test are SEPARATE steps (`handoff` then `deliver`/`drop`), so the producer may run in between. -/
 namespace PqModel.Async
 
-/-! Spike: asyncPages (page.go:121-300) as a two-process transition system with versioned seeks.
-    The underlying reader is abstracted (by C08) to a position `p`, `read` returning page `p` and
-    moving to `nxt p`. All interleavings of consumer operations and producer steps are allowed. -/
+/-- what `ReadPage` hands to its caller: `(page, err)` (page.go:205) -/
+inductive Res where
+  | page (pos : Nat)   -- a page, read from position `pos`, nil error
+  | eof                -- (nil, io.EOF)
+  | soft (code : Nat)  -- (nil, err) with err recoverable: `ErrSeekOutOfRange` (page.go:322)
+  | fatal (code : Nat) -- (nil, err) with `isFatalError err` (page.go:321-323)
+deriving DecidableEq, Repr
+
+inductive Rd where | page | eof | fatal (code : Nat)
+deriving DecidableEq, Repr
+
+inductive Sk where | ok | soft (code : Nat) | fatal (code : Nat)
+deriving DecidableEq, Repr
+
+/-- the wrapped `Pages` (abstract, see the header) -/
+structure Under where
+  next : Nat → Nat
+  rd   : Nat → Rd
+  sk   : Nat → Sk
+
+/-- the variables that drive the producer's loop body: the position of the wrapped reader,
+    `seekTo.rowIndex` (`none` = -1, page.go:278,293) and the sticky fatal `err` (page.go:282,289).
+    The ghost sequential reader has the same shape. -/
+structure Loc where
+  pos  : Nat
+  row  : Option Nat
+  ferr : Option Nat
+deriving DecidableEq, Repr
+
+/-- MIRROR page.go:285-300, one iteration of the loop body up to the `select`:
+    `none` = the `continue` of line 295, `some r` = the `(page, err)` offered on `read`. -/
+def body (U : Under) (l : Loc) : Loc × Option Res :=
+  match l.ferr with
+  | some e => (l, some (.fatal e))                                 -- :289 isFatalError(err): skip
+  | none =>
+    match l.row with
+    | some k =>                                                    -- :290 seekTo.rowIndex >= 0
+      match U.sk k with                                            -- :291
+      | .ok => ({ pos := k, row := none, ferr := none }, none)     -- :292-295
+      | .soft c => (l, some (.soft c))                             -- rowIndex stays >= 0: retried
+      | .fatal c => ({ l with ferr := some c }, some (.fatal c))
+    | none =>
+      match U.rd l.pos with                                        -- :298
+      | .page => ({ l with pos := U.next l.pos }, some (.page l.pos))
+      | .eof => (l, some .eof)
+      | .fatal c => ({ l with ferr := some c }, some (.fatal c))
+
+/-! ## The sequential reference (SPEC side)
+`SeekToRow k` records the target, `ReadPage` applies a pending target and reads: this is what one
+goroutine calling the wrapped reader lazily would see. -/
+
+def lsSeek (k : Nat) (l : Loc) : Loc := { l with row := some k }
+
+/-- the loop body run to its first output (at most two iterations: a successful seek, then a read) -/
+def lsRead (U : Under) (l : Loc) : Loc × Res :=
+  match body U l with
+  | (l1, some r) => (l1, r)
+  | (l1, none) =>
+    match body U l1 with
+    | (l2, some r) => (l2, r)
+    | (l2, none) => (l2, .eof) -- unreachable (`body_none_then_some`)
+
+/-- something travelling over `read`: `asyncPage{page, err, version}` (page.go:152-156) plus a
+    ghost serial number -/
+structure Item where
+  res : Res
+  ver : Nat
+  id  : Nat
+deriving DecidableEq, Repr
+
+inductive CPc where
+  | idle            -- between calls
+  | seekMid         -- in SeekToRow, after the flush `select` (page.go:222-228), before the send (:235)
+  | reading         -- in ReadPage, blocked on `<-pages.read` (page.go:190)
+  | got (it : Item) -- in ReadPage, received `p`, before the version test (page.go:203)
+  | closing         -- in Close, in `for p := range pages.read` (page.go:173)
+  | closed          -- Close returned
+deriving DecidableEq, Repr
 
 inductive PPc where
-  | start  -- after init was closed: non-blocking poll of the seek channel (page.go:262-266)
-  | top    -- start of the loop body
-  | send   -- in the select, holding a page
+  | waitInit         -- blocked in the first select (page.go:258-264)
+  | poll             -- before the non-blocking select on seek (page.go:274-280)
+  | top              -- start of the loop body (page.go:284)
+  | send (it : Item) -- in the select of page.go:303-317, offering `it`
+  | final            -- in the deferred function, offering the final item (page.go:250)
+  | exited           -- `read` closed (page.go:252)
 deriving DecidableEq, Repr
 
 structure G where
-  cver   : Nat                    -- asyncPages.version (consumer side)
-  seekCh : Option (Nat × Nat)     -- seek channel, capacity 1: (rowIndex, version)
-  ppc    : PPc
-  prow   : Option Nat             -- seekTo.rowIndex (none = -1)
-  pver   : Nat                    -- seekTo.version
-  held   : Option (Nat × Nat)     -- page in hand: (position it was read from, version tag)
-  upos   : Nat                    -- position of the underlying reader
-  spec   : Nat                    -- ghost: position of a sequential reader after the consumer's completed ops
-deriving Repr
+  cpc : CPc
+  cver : Nat                    -- pages.version (consumer only)
+  initClosed : Bool
+  doneClosed : Bool
+  seekCh : Option (Nat × Nat)   -- (rowIndex, version)
+  ppc : PPc
+  loc : Loc                     -- wrapped reader position, seekTo.rowIndex, fatal err
+  pver : Nat                    -- seekTo.version
+  nprod : Nat                   -- ghost: items produced so far (next serial number)
+  spec : Loc                    -- ghost: the sequential reader after the consumer's completed calls
+  released : List Nat           -- ghost: serials passed to Release
+  handed : List Nat             -- ghost: serials returned to the caller of ReadPage
+deriving DecidableEq, Repr
 
-variable (nxt : Nat → Nat)
+/-- the events of the trace hook (`trace_verif.go`), one per transition -/
+inductive Ev where
+  | readBegin | handoff | deliver (r : Res) (v : Nat) | drop (v : Nat) | readClosed
+  | seekPoll (drained : Bool) | seekSend (k v : Nat) | seekClosed
+  | closeBegin | closeRecv | closeFinal | closeEnd | closeAgain
+  | initPass | initDone | pollTake (k v : Nat) | pollEmpty
+  | bodyCont | bodyOffer (r : Res) (v : Nat) | selTake (k v : Nat) | selDone
+deriving DecidableEq, Repr
 
-/-- labelled steps; `deliver p` is what ReadPage returns to the caller -/
-inductive Step : G → Option Nat → G → Prop where
-  /-- consumer SeekToRow(k), channel occupied: drain and resend with the same version -/
-  | cseekFull {g k k0 v0} : g.seekCh = some (k0, v0) →
-      Step g none { g with seekCh := some (k, g.cver), spec := k }
-  /-- consumer SeekToRow(k), channel empty: bump the version -/
-  | cseekEmpty {g k} : g.seekCh = none →
-      Step g none { g with cver := g.cver + 1, seekCh := some (k, g.cver + 1), spec := k }
-  /-- producer start-up: a seek issued before the first read is picked up -/
-  | pstartTake {g k v} : g.ppc = .start → g.seekCh = some (k, v) →
-      Step g none { g with seekCh := none, prow := some k, pver := v, ppc := .top }
-  | pstartSkip {g} : g.ppc = .start → g.seekCh = none →
-      Step g none { g with prow := none, ppc := .top }
-  /-- producer applies a pending seek -/
-  | papply {g k} : g.ppc = .top → g.prow = some k →
-      Step g none { g with upos := k, prow := none }
-  /-- producer reads the next page -/
-  | pread {g} : g.ppc = .top → g.prow = none →
-      Step g none { g with held := some (g.upos, g.pver), upos := nxt g.upos, ppc := .send }
-  /-- producer, blocked in the select, takes a seek instead of sending: page released -/
-  | ptake {g k v} : g.ppc = .send → g.seekCh = some (k, v) →
-      Step g none { g with seekCh := none, prow := some k, pver := v, held := none, ppc := .top }
-  /-- rendezvous on `read`, versions match: ReadPage returns the page -/
-  | deliver {g p v} : g.ppc = .send → g.held = some (p, v) → v = g.cver →
-      Step g (some p) { g with held := none, ppc := .top, spec := nxt g.spec }
-  /-- rendezvous on `read`, stale version: the consumer drops the page and keeps waiting -/
-  | drop {g p v} : g.ppc = .send → g.held = some (p, v) → v ≠ g.cver →
-      Step g none { g with held := none, ppc := .top }
+def init : G :=
+  { cpc := .idle, cver := 0, initClosed := false, doneClosed := false, seekCh := none,
+    ppc := .waitInit, loc := ⟨0, none, none⟩, pver := 0, nprod := 0,
+    spec := ⟨0, none, none⟩, released := [], handed := [] }
 
-def AInv (g : G) : Prop :=
-  (g.ppc = .top → g.held = none) ∧ (g.ppc = .send → g.held.isSome ∧ g.prow = none) ∧
-  (g.ppc = .start → g.held = none ∧ g.prow = none) ∧
-  match g.seekCh with
-  | some (k, v) =>
-      v = g.cver ∧ g.spec = k ∧ g.pver < g.cver ∧ (∀ p w, g.held = some (p, w) → w < g.cver)
-  | none =>
-    match g.prow with
-    | some k => g.pver = g.cver ∧ g.spec = k ∧ g.held = none
-    | none =>
-      (g.pver = g.cver ∧
-        match g.held with
-        | some (p, w) => w = g.cver ∧ p = g.spec ∧ g.upos = nxt p
-        | none => g.upos = g.spec) ∨
-      -- the producer is still working for an older seek whose successor has not been issued … impossible:
-      False
+inductive Step (U : Under) : G → Ev → G → Prop where
+  /-- consumer, page.go:186-190: ReadPage calls start() (closes init) and blocks on `read` -/
+  | readBegin {g} : g.cpc = .idle →
+      Step U g .readBegin { g with cpc := .reading, initClosed := true }
+  /-- page.go:190 with page.go:304-308: rendezvous on `read`; the producer goes round its loop -/
+  | handoff {g it} : g.cpc = .reading → g.ppc = .send it →
+      Step U g .handoff { g with cpc := .got it, ppc := .top }
+  /-- consumer, page.go:203-205: version matches, ReadPage returns `(p.page, p.err)` -/
+  | deliver {g it} : g.cpc = .got it → it.ver = g.cver →
+      Step U g (.deliver it.res it.ver)
+        { g with cpc := .idle, handed := it.id :: g.handed, spec := (lsRead U g.spec).1 }
+  /-- consumer, page.go:203,208-210: stale version, Release(p.page) and wait again -/
+  | drop {g it} : g.cpc = .got it → it.ver ≠ g.cver →
+      Step U g (.drop it.ver) { g with cpc := .reading, released := it.id :: g.released }
+  /-- consumer, page.go:188-194 after Close: `read` is closed, ReadPage returns io.EOF -/
+  | readClosed {g} : g.cpc = .closed → Step U g .readClosed g
+  /-- consumer, page.go:222-224: SeekToRow drains a seek the producer has not taken -/
+  | seekPollDrain {g kv} : g.cpc = .idle → g.seekCh = some kv →
+      Step U g (.seekPoll true) { g with cpc := .seekMid, seekCh := none }
+  /-- consumer, page.go:225-227: nothing to drain, `pages.version++` -/
+  | seekPollBump {g} : g.cpc = .idle → g.seekCh = none →
+      Step U g (.seekPoll false) { g with cpc := .seekMid, cver := g.cver + 1 }
+  /-- consumer, page.go:235-238: the (never blocking) send, then start() -/
+  | seekSend {g k} : g.cpc = .seekMid →
+      Step U g (.seekSend k g.cver)
+        { g with cpc := .idle, seekCh := some (k, g.cver), initClosed := true, spec := lsSeek k g.spec }
+  /-- consumer, page.go:215-218 after Close: io.ErrClosedPipe -/
+  | seekClosed {g} : g.cpc = .closed → Step U g .seekClosed g
+  /-- consumer, page.go:163-173: Close closes init and done, then ranges over `read` -/
+  | closeBegin {g} : g.cpc = .idle →
+      Step U g .closeBegin { g with cpc := .closing, initClosed := true, doneClosed := true }
+  /-- page.go:173-175 with page.go:304-308: Close receives an item and releases it -/
+  | closeRecv {g it} : g.cpc = .closing → g.ppc = .send it →
+      Step U g .closeRecv { g with ppc := .top, released := it.id :: g.released }
+  /-- page.go:173-179 with page.go:250-252: the final item `{err: pages.Close(), version: -1}`
+      is received, `read` is closed -/
+  | closeFinal {g} : g.cpc = .closing → g.ppc = .final →
+      Step U g .closeFinal { g with ppc := .exited }
+  /-- consumer, page.go:173,182-183: the range loop ends on the closed channel, `seek = nil` -/
+  | closeEnd {g} : g.cpc = .closing → g.ppc = .exited →
+      Step U g .closeEnd { g with cpc := .closed }
+  /-- consumer, page.go:163-184 on a closed reader: nothing to do -/
+  | closeAgain {g} : g.cpc = .closed → Step U g .closeAgain g
+  /-- producer, page.go:259 -/
+  | initPass {g} : g.ppc = .waitInit → g.initClosed = true →
+      Step U g .initPass { g with ppc := .poll }
+  /-- producer, page.go:261-263: `return`, the deferred function runs -/
+  | initDone {g} : g.ppc = .waitInit → g.doneClosed = true →
+      Step U g .initDone { g with ppc := .final }
+  /-- producer, page.go:275: a SeekToRow issued before the first read is picked up -/
+  | pollTake {g k v} : g.ppc = .poll → g.seekCh = some (k, v) →
+      Step U g (.pollTake k v)
+        { g with ppc := .top, seekCh := none, loc := { g.loc with row := some k }, pver := v }
+  /-- producer, page.go:277-278: `seekTo.rowIndex = -1`, `seekTo.version` is the zero value -/
+  | pollEmpty {g} : g.ppc = .poll → g.seekCh = none →
+      Step U g .pollEmpty { g with ppc := .top }
+  /-- producer, page.go:289-295: pending seek applied, `continue` -/
+  | bodyCont {g l} : g.ppc = .top → body U g.loc = (l, none) →
+      Step U g .bodyCont { g with loc := l }
+  /-- producer, page.go:289-308: `(page, err)` computed, offered on `read` tagged `seekTo.version` -/
+  | bodyOffer {g l r} : g.ppc = .top → body U g.loc = (l, some r) →
+      Step U g (.bodyOffer r g.pver)
+        { g with loc := l, ppc := .send ⟨r, g.pver, g.nprod⟩, nprod := g.nprod + 1 }
+  /-- producer, page.go:310-312: a seek arrives while offering: Release(page), new seekTo -/
+  | selTake {g it k v} : g.ppc = .send it → g.seekCh = some (k, v) →
+      Step U g (.selTake k v)
+        { g with ppc := .top, seekCh := none, loc := { g.loc with row := some k }, pver := v,
+                 released := it.id :: g.released }
+  /-- producer, page.go:313-316: done is closed: Release(page), return -/
+  | selDone {g it} : g.ppc = .send it → g.doneClosed = true →
+      Step U g .selDone { g with ppc := .final, released := it.id :: g.released }
 
-def init : G := { cver := 0, seekCh := none, ppc := .start, prow := none, pver := 0, held := none, upos := 0, spec := 0 }
+/-- paths of the transition system -/
+inductive Path (U : Under) : G → List Ev → G → Prop where
+  | nil {g} : Path U g [] g
+  | cons {g e g' es g''} : Step U g e g' → Path U g' es g'' → Path U g (e :: es) g''
 
-theorem init_inv : AInv nxt init := by
-  simp [AInv, init]
+def Reachable (U : Under) (g : G) : Prop := ∃ es, Path U init es g
 
-/-- safety: the invariant is preserved by every step of either process, and every delivered page is
-    exactly the page a sequential reader would return next -/
-theorem step_inv {g g' : G} {out : Option Nat} (h : Step nxt g out g') (hi : AInv nxt g) :
-    AInv nxt g' ∧ (∀ p, out = some p → p = g.spec) := by
-  unfold AInv at hi ⊢
-  cases h <;>
-    rcases hc : g.seekCh with _ | ⟨k1, v1⟩ <;>
-    rcases hp : g.prow with _ | k2 <;>
-    rcases hh : g.held with _ | ⟨p3, w3⟩ <;>
-    simp_all <;> (try omega)
+theorem Path.snoc {U g es g' e g''} (h : Path U g es g') (s : Step U g' e g'') :
+    Path U g (es ++ [e]) g'' := by
+  induction h with
+  | nil => exact .cons s .nil
+  | cons s' _ ih => exact .cons s' (ih s)
 
-#print axioms step_inv
+theorem Path.append {U g es g' es' g''} (h : Path U g es g') (h' : Path U g' es' g'') :
+    Path U g (es ++ es') g'' := by
+  induction h with
+  | nil => exact h'
+  | cons s' _ ih => exact .cons s' (ih h')
 
-/-- progress: whenever the consumer is waiting in ReadPage, some step is enabled -/
-theorem progress (g : G) (hi : AInv nxt g) : ∃ out g', Step nxt g out g' := by
-  unfold AInv at hi
-  rcases hpc : g.ppc with _ | _ | _
-  · rcases hc : g.seekCh with _ | ⟨k, v⟩
-    · exact ⟨_, _, Step.pstartSkip hpc hc⟩
-    · exact ⟨_, _, Step.pstartTake hpc hc⟩
-  · rcases hp : g.prow with _ | k
-    · exact ⟨_, _, Step.pread hpc hp⟩
-    · exact ⟨_, _, Step.papply hpc hp⟩
-  · have := (hi.2.1 hpc).1
-    rcases hh : g.held with _ | ⟨p, v⟩
-    · simp [hh] at this
-    · by_cases hv : v = g.cver
-      · exact ⟨_, _, Step.deliver hpc hh hv⟩
-      · exact ⟨_, _, Step.drop hpc hh hv⟩
+/-- induction principle: an invariant of `init` preserved by every step holds in every reachable
+    state -/
+theorem reachable_induction {U : Under} {P : G → Prop} (h0 : P init)
+    (hs : ∀ g e g', P g → Step U g e g' → P g') : ∀ g, Reachable U g → P g := by
+  intro g ⟨es, hp⟩
+  have : ∀ g0 es g, Path U g0 es g → P g0 → P g := by
+    intro g0 es g hp
+    induction hp with
+    | nil => exact id
+    | cons s _ ih => exact fun h => ih (hs _ _ _ h s)
+  exact this _ _ _ hp h0
 
--- non-vacuity: seek 5 before the first read, then the first delivered page is page 5
-example : ∃ g1 g2 g3 g4 g5, Step (· + 1) init none g1 ∧ Step (· + 1) g1 none g2 ∧ Step (· + 1) g2 none g3 ∧
-    Step (· + 1) g3 none g4 ∧ Step (· + 1) g4 (some 5) g5 :=
-  ⟨_, _, _, _, _, Step.cseekEmpty (k := 5) rfl, Step.pstartTake rfl rfl, Step.papply rfl rfl,
-    Step.pread rfl rfl, Step.deliver rfl rfl rfl⟩
-#print axioms progress
+/-! ## Executable successor function (what `pqdriver` runs) -/
+
+/-- the successor of `g` under event `e`, if `e` is enabled -/
+def next? (U : Under) (g : G) (e : Ev) : Option G :=
+  match e with
+  | .readBegin => if g.cpc = .idle then some { g with cpc := .reading, initClosed := true } else none
+  | .handoff =>
+    match g.ppc with
+    | .send it => if g.cpc = .reading then some { g with cpc := .got it, ppc := .top } else none
+    | _ => none
+  | .deliver r v =>
+    match g.cpc with
+    | .got it =>
+      if it.ver = g.cver ∧ r = it.res ∧ v = it.ver then
+        some { g with cpc := .idle, handed := it.id :: g.handed, spec := (lsRead U g.spec).1 }
+      else none
+    | _ => none
+  | .drop v =>
+    match g.cpc with
+    | .got it =>
+      if it.ver ≠ g.cver ∧ v = it.ver then
+        some { g with cpc := .reading, released := it.id :: g.released }
+      else none
+    | _ => none
+  | .readClosed => if g.cpc = .closed then some g else none
+  | .seekPoll true =>
+    if g.cpc = .idle ∧ g.seekCh.isSome then some { g with cpc := .seekMid, seekCh := none } else none
+  | .seekPoll false =>
+    if g.cpc = .idle ∧ g.seekCh = none then some { g with cpc := .seekMid, cver := g.cver + 1 } else none
+  | .seekSend k v =>
+    if g.cpc = .seekMid ∧ v = g.cver then
+      some { g with cpc := .idle, seekCh := some (k, g.cver), initClosed := true, spec := lsSeek k g.spec }
+    else none
+  | .seekClosed => if g.cpc = .closed then some g else none
+  | .closeBegin =>
+    if g.cpc = .idle then some { g with cpc := .closing, initClosed := true, doneClosed := true } else none
+  | .closeRecv =>
+    match g.ppc with
+    | .send it =>
+      if g.cpc = .closing then some { g with ppc := .top, released := it.id :: g.released } else none
+    | _ => none
+  | .closeFinal => if g.cpc = .closing ∧ g.ppc = .final then some { g with ppc := .exited } else none
+  | .closeEnd => if g.cpc = .closing ∧ g.ppc = .exited then some { g with cpc := .closed } else none
+  | .closeAgain => if g.cpc = .closed then some g else none
+  | .initPass => if g.ppc = .waitInit ∧ g.initClosed = true then some { g with ppc := .poll } else none
+  | .initDone => if g.ppc = .waitInit ∧ g.doneClosed = true then some { g with ppc := .final } else none
+  | .pollTake k v =>
+    if g.ppc = .poll ∧ g.seekCh = some (k, v) then
+      some { g with ppc := .top, seekCh := none, loc := { g.loc with row := some k }, pver := v }
+    else none
+  | .pollEmpty => if g.ppc = .poll ∧ g.seekCh = none then some { g with ppc := .top } else none
+  | .bodyCont =>
+    match body U g.loc with
+    | (l, none) => if g.ppc = .top then some { g with loc := l } else none
+    | _ => none
+  | .bodyOffer r v =>
+    match body U g.loc with
+    | (l, some r') =>
+      if g.ppc = .top ∧ r = r' ∧ v = g.pver then
+        some { g with loc := l, ppc := .send ⟨r', g.pver, g.nprod⟩, nprod := g.nprod + 1 }
+      else none
+    | _ => none
+  | .selTake k v =>
+    match g.ppc with
+    | .send it =>
+      if g.seekCh = some (k, v) then
+        some { g with ppc := .top, seekCh := none, loc := { g.loc with row := some k }, pver := v,
+                      released := it.id :: g.released }
+      else none
+    | _ => none
+  | .selDone =>
+    match g.ppc with
+    | .send it =>
+      if g.doneClosed = true then some { g with ppc := .final, released := it.id :: g.released } else none
+    | _ => none
 
 end PqModel.Async
